@@ -81,11 +81,75 @@ def array_start(src, fname):
     return int(need(re.search(r'pub const ARRAY_START: u32 = (\d+);', src), fname + ' ARRAY_START').group(1))
 
 
+def rust_char(lit):
+    """Decode the body of a Rust char literal ('a', '\\\\', '\\'', '\\u{000C}', '\\n')."""
+    if lit.startswith('\\u{') and lit.endswith('}'):
+        return chr(int(lit[3:-1], 16))
+    if lit.startswith('\\'):
+        return unescape(lit)
+    if len(lit) != 1:
+        raise Anchor('unreadable char literal %r' % lit)
+    return lit
+
+
+CHAR_LIT = r"""'((?:\\u\{[0-9A-Fa-f]+\}|\\.|[^'\\]))'"""
+
+
+def fn_body(src, name):
+    """Text of `fn name(...) ... {` up to the closing brace at the same indentation."""
+    m = need(re.search(r'^( *)fn %s\b[^\n]*\{\n(.*?)^\1\}\n' % re.escape(name), src, re.S | re.M), 'fn ' + name)
+    return m.group(2)
+
+
 def terminal_chars(src):
-    fn = need(re.search(r'fn is_regular_terminal_char\(c: char\) -> bool \{(.*?)\n    \}', src, re.S),
-              'is_regular_terminal_char').group(1)
-    esc = need(re.search(r'fn is_escapable\w*\(c: char\) -> bool \{(.*?)\n    \}', src, re.S), 'escapable')
-    return fn, esc.group(1)
+    """parse.rs `terminal`: regular characters, escapable characters, and whether the remaining
+    input is re-wrapped into a fresh LocatedSpan (`.into()` from a bare &str) after the backslash
+    and after the escaped character."""
+    term = fn_body(src, 'terminal')
+    reg = need(re.search(r'fn is_regular_terminal_char\(c: char\) -> bool \{(.*?)\n    \}', term, re.S),
+               'is_regular_terminal_char').group(1)
+    alnum = bool(re.search(r'c\.is_ascii_alphanumeric\(\)', reg))
+    mm = need(re.search(r'matches!\(\s*c,(.*?)\)\s*$', reg, re.S), 'is_regular_terminal_char matches!').group(1)
+    punct = [rust_char(x) for x in re.findall(CHAR_LIT, mm)]
+    leftover = re.sub(CHAR_LIT, '', mm)
+    if re.sub(r'[\s|,]', '', leftover):
+        raise Anchor('is_regular_terminal_char: unexpected pattern text %r' % leftover.strip())
+    rest = re.sub(CHAR_LIT, '', re.sub(r'matches!\(.*\)\s*$', '', reg, flags=re.S))
+    if re.sub(r'\s|\|\|', '', rest.replace('c.is_ascii_alphanumeric()', '')):
+        raise Anchor('is_regular_terminal_char: unexpected clause %r' % rest.strip())
+    loop = term[term.index('let mut term'):]
+    esc = need(re.search(r"while (?:let Some\(after\) = input\.strip_prefix\('\\\\'\)|input\.starts_with\('\\\\'\)) \{(.*?)\n        \}\n",
+                         loop, re.S), 'terminal escape loop').group(1)
+    sw = need(re.search(r'input\.starts_with\(\[(.*?)\]\)', esc, re.S), 'escapable set').group(1)
+    escapable = [rust_char(x) for x in re.findall(CHAR_LIT, sw)]
+    if re.sub(r'[\s,]', '', re.sub(CHAR_LIT, '', sw)):
+        raise Anchor('escapable set: unexpected text')
+    # how the loop continues after the backslash / after the escaped character
+    a = need(re.search(r'^\s*input = ([^;]*);', esc, re.M), 'terminal: continuation after backslash').group(1)
+    b = need(re.search(r'consumed \+= 1;\s*input = ([^;]*);', esc, re.S), 'terminal: continuation after escaped char').group(1)
+
+    def resets(expr, what):
+        e = re.sub(r'\s', '', expr)
+        if e in ('after.into()', 'chars.as_str().into()', 'Span::new(after)', 'Span::new(chars.as_str())'):
+            return True      # a fresh LocatedSpan: offset 0, line 1
+        if re.fullmatch(r'(input\.)?(take_from|slice|take_split)\(.*\)(\.[01])?|after|rest|input\.take_from\(\d+\)', e):
+            return False     # stays inside the original LocatedSpan
+        raise Anchor('terminal: cannot classify continuation %s: %r' % (what, expr))
+    for tag in ('"..."',):
+        need(re.search(r'input\.starts_with\(%s\)' % re.escape(tag), loop), 'terminal: ... check')
+    return alnum, punct, escapable, resets(a, 'after backslash'), resets(b, 'after escaped char')
+
+
+def blank_chars(src):
+    c = need(re.search(r"fn comment\(input: Span\).*?char\(" + CHAR_LIT + r"\)\(input\)\?;.*?take_till\(\|c\| c == " + CHAR_LIT + r"\)",
+                       src, re.S), 'comment')
+    f = need(re.search(r"fn form_feed\(input: Span\).*?char\(" + CHAR_LIT + r"\)\(input\)\?;", src, re.S), 'form_feed')
+    need(re.search(r'alt\(\(multispace1, comment, form_feed\)\)', src), 'blanks = multispace1 | comment | form_feed')
+    return rust_char(c.group(1)), rust_char(c.group(2)), rust_char(f.group(1))
+
+
+def coq_ascii(ch):
+    return '(ascii_of_N %d)' % ord(ch)
 
 
 def main():
@@ -112,6 +176,19 @@ def main():
         lines.append('Definition quote_open_%s : string := %s.' % (sh, coq_string(pre)))
         lines.append('Definition quote_close_%s : string := %s.' % (sh, coq_string(post)))
         lines.append('')
+    # parse.rs: character classes of the terminal lexer and the blank characters
+    psrc = rd('parse.rs')
+    alnum, punct, escapable, r1, r2 = terminal_chars(psrc)
+    cstart, cend, ff = blank_chars(psrc)
+    lines.append('Definition terminal_regular_alnum : bool := %s.' % ('true' if alnum else 'false'))
+    lines.append('Definition terminal_regular_punct : string := %s.' % coq_string(''.join(punct)))
+    lines.append('Definition terminal_escapable : string := %s.' % coq_string(''.join(escapable)))
+    lines.append('Definition terminal_reset_after_backslash : bool := %s.' % ('true' if r1 else 'false'))
+    lines.append('Definition terminal_reset_after_escaped : bool := %s.' % ('true' if r2 else 'false'))
+    lines.append('Definition comment_start_char : ascii := %s.' % coq_ascii(cstart))
+    lines.append('Definition comment_end_char : ascii := %s.' % coq_ascii(cend))
+    lines.append('Definition form_feed_char : ascii := %s.' % coq_ascii(ff))
+    lines.append('')
     text = '\n'.join(lines) + '\n'
     os.makedirs(outdir, exist_ok=True)
     path = os.path.join(outdir, 'Consts.v')
